@@ -206,6 +206,19 @@ def run(ctx):
             else:
                 calls.append(('extract_dataframe', lambda: point_extraction.extract_dataframe(
                     ds, df, ('lon', 'lat'), missing_points='fill')))
+            # the same calls on the dataset held as dask arrays (as opened with chunks=...), every second request
+            if (len(pts) + len(misses)) % 2 == 0 or len(pts) >= 4:
+                try:
+                    dsc = ds.chunk()
+                except Exception:     # noqa: BLE001
+                    dsc = None
+                if dsc is not None:
+                    mp2 = {'PError': 'error', 'PDrop': 'drop', 'PFill': 'fill'}[pol]
+                    calls.append(('extract_dataframe[dask]', lambda: point_extraction.extract_dataframe(
+                        dsc, df, ('lon', 'lat'), missing_points=mp2)))
+                    if pol != 'PFill':
+                        calls.append(('extract_points[dask]', lambda: point_extraction.extract_points(dsc, points, missing_points=mp2)))
+                    ctx.count('op:extract_on_dask_arrays')
             for cname, fn in calls:
                 bad = None
                 impl = None
@@ -238,7 +251,7 @@ def run(ctx):
                                         break
                             if bad:
                                 break
-                        if not bad and cname == 'extract_dataframe':
+                        if not bad and cname.startswith('extract_dataframe'):
                             if [int(x) for x in out['tag'].values] != [100 + k for k in labels]:
                                 bad = f'{cname}: table column does not follow the rows'
                         if not bad:
